@@ -1,11 +1,14 @@
 import TensorModel.Run
+import TensorModel.OwnTrace
 open TM
 
 partial def loop (h : IO.FS.Stream) (out : IO.FS.Stream) : IO Unit := do
   let line ← h.getLine
   if line.isEmpty then return ()
   let l := line.trimAscii.toString
-  if l != "" then
+  if l.startsWith "OWN " then
+    out.putStrLn (TM.Own.checkLine l)
+  else if l != "" then
     for o in runProgram l do
       out.putStrLn o
   loop h out
